@@ -3,7 +3,8 @@ C02 -- major star-allele calls are consistent, optimal and complete.
 
 Decided by whole-function folding against the recording MILP library (sa.lpmodel): major.solve_major_model and the
 solver wrapper class of /repo are executed by the analysis' interpreter on sample instances.
-(R9) With an unbounded optimality gap the routine reports every combination its model admits, with its score: this set
+(R9) Given a `solutions` that walks every feasible point of the recorded model, the routine's own read-out lists every
+     combination its model admits, with its score: this set
      equals the independent reading of the statement (each configuration gets exactly its copies; every observed core
      variant is carried or novel, never both, never neither; score = fit error + novelty penalties); the only tolerated
      extra restriction is "one novel substitution per site".
@@ -67,6 +68,7 @@ def r7(repo, res):
     alleles["99"] = Obj(cn_config="68", func_muts=set(), minors={}, name="")
     gene.get_rsid = lambda m: "rs"
     structure.position_cn = lambda pos: 2
+    structure.max_cn = lambda: 3
     support = collections.defaultdict(int, {M1: 4, M2: 0, M3: 2, INS: 1})
     passes = []
 
@@ -135,8 +137,9 @@ def major_instances():
 
     rnd = random.Random(_seed() + 40)
     A1, A2, A3, AI, A4, AD = MM(100, "A>G"), MM(200, "C>T"), MM(300, "G>A"), MM(100, "insT"), MM(100, "A>T"), MM(250, "delAC")
+    DI = MM(250, "delGCinsA")
     pool = {"1": ("1", []), "2": ("1", [A1]), "4": ("1", [A1, A2]), "15": ("1", [AI]), "10": ("1", [A3]), "17": ("1", [A4, A3]),
-            "9": ("1", [AD]), "36": ("36", [A2]), "57": ("36", [A2, A3]), "13": ("13", [A1])}
+            "9": ("1", [AD]), "27": ("1", [DI]), "36": ("36", [A2]), "57": ("36", [A2, A3]), "13": ("13", [A1])}
     out = [
         Instance({k: pool[k] for k in ("1", "2", "4", "15", "10", "36")}, {"1": 2, "36": 1},
                  {A1: 11, A2: 19, A3: 2, AI: 4, MM(100, "_"): 18, MM(200, "_"): 12, MM(300, "_"): 27}, no_cov={("36", 300)},
@@ -145,6 +148,13 @@ def major_instances():
         Instance({k: pool[k] for k in ("1", "10")}, {"1": 2}, {A1: 9, A4: 8, AI: 5, A3: 10, MM(100, "_"): 3, MM(300, "_"): 10}, present=[A1, A4, AI]),
         # a position without single-copy depth; a non-default novelty penalty
         Instance({k: pool[k] for k in ("1", "2", "9")}, {"1": 3}, {A1: 20, AD: 7, MM(100, "_"): 10, MM(250, "_"): 21}, single={250: 0.0}, major_novel=2.5),
+        # a deletion-insertion core variant (it is not an insertion: its carrier is no reference copy at that site)
+        Instance({k: pool[k] for k in ("1", "27")}, {"1": 2}, {DI: 10, MM(250, "_"): 10}),
+        # observed copies in thirds (single-copy depth 18.75 = 75 reads / 4 copies): tied combinations whose float sums differ in the last digits
+        Instance({k: pool[k] for k in ("1", "2", "10", "4")}, {"1": 4}, {A1: 50, A2: 25, A3: 25, MM(100, "_"): 25, MM(200, "_"): 50, MM(300, "_"): 50},
+                 single={100: 18.75, 200: 18.75, 300: 18.75}),
+        # two combinations that tie exactly (5/7-th copies) while their floating-point sums differ in the last digit: both are optimal
+        Instance({k: pool[k] for k in ("1", "2", "4")}, {"1": 4}, {A1: 15, MM(100, "_"): 55, A2: 40, MM(200, "_"): 30}, single={100: 17.5, 200: 17.5}),
         # one copy of one configuration, nothing observed
         Instance({"1": pool["1"]}, {"1": 1}, {}),
     ]
@@ -175,8 +185,8 @@ def major_instances():
 
 
 def r9(repo, res):
-    """solve_major_model folded whole against the recording library. (R9) with an unbounded gap the routine reports every
-    admissible combination with its score: compared with the independent reading of the statement. (R10) with gap 0 / 0.1 /
+    """solve_major_model folded whole against the recording library. (R9) the routine's own read-out over every feasible point of the
+    recorded model lists every admissible combination with its score: compared with the independent reading of the statement. (R10) with gap 0 / 0.1 /
     0.5: the report is exactly the admissible combinations within the gap, best first, each once."""
     from checks._majormodel import fold_solve_major, reference
     from sa.fold import module_consts
@@ -196,7 +206,7 @@ def r9(repo, res):
         ref = reference(inst)
         combos += len(ref)
         try:
-            kind, rows = fold_solve_major(repo, inst, 1e9, wrapper)
+            kind, rows = fold_solve_major(repo, inst, 0.0, wrapper, every=True)
         except Unfoldable as e:
             res.err("C02.R9", f"solve_major_model outside the folding language: {e}")
             return
@@ -212,6 +222,8 @@ def r9(repo, res):
             got[key(row)] = row[0]
             if not row[3]:
                 bad.setdefault("chain", f"{tag}: a reported combination does not carry the gene structure it was computed for")
+        exact = {k_: v_[2] for k_, v_ in ref.items()}
+        ref = {k_: (v_[0], v_[1]) for k_, v_ in ref.items()}
         must = {k_ for k_, (sc, one) in ref.items() if one}          # admissible under every reading
         may = set(ref)                                              # admissible if the one-novel-per-site rule is not applied
         extra = sorted(set(got) - may)
@@ -249,7 +261,10 @@ def r9(repo, res):
             best = min(allowed.values())
             ub = (1 + gap) * best
             want = {k_ for k_, sc in allowed.items() if sc <= ub + prec}
-            sure = {k_ for k_, sc in allowed.items() if sc <= ub - prec}
+            from fractions import Fraction
+            best_exact = min(exact[k_] for k_ in allowed)
+            # a combination whose documented objective is exactly within (1 + gap) x best must be reported, whatever the rounding of the sums
+            sure = {k_ for k_ in allowed if exact[k_] <= (1 + Fraction(str(gap))) * best_exact and allowed[k_] <= ub + prec}
             keys = [k_ for k_, _ in rep]
             if len(set(keys)) != len(keys):
                 bad.setdefault("report", f"{tag}, gap {gap}: a combination is reported twice: {keys}")
